@@ -108,6 +108,26 @@ def check_conformance(ctx, app, path, method, headers, body, what, rc, use_valid
         r.sr_calls.append((status, list(hdrs)))
         return lambda data: r.chunks.append(data)
     target = validator(app) if use_validator else app
+    # every file the static code opens while answering is remembered (not only those handed to the file wrapper)
+    import builtins
+    import clastic.static as cs
+    had = cs.__dict__.get('open')
+
+    def tracking_open(*a, **kw):
+        f = builtins.open(*a, **kw)
+        FileSpy.opened.append(f)
+        return f
+    cs.open = tracking_open
+    try:
+        return _conformance_call(ctx, target, env, start_response, state, r, method, what, rc)
+    finally:
+        if had is None:
+            del cs.open
+        else:
+            cs.open = had
+
+
+def _conformance_call(ctx, target, env, start_response, state, r, method, what, rc):
     try:
         it = target(env, start_response)
         try:
